@@ -13,5 +13,12 @@ check("C05", "exploration",
       "caught and reported. ~2.4M executed cells per quick run.",
       "Trusted: clang 14 on x86-64 as arithmetic oracle; the UB predicate (__int128/long double) that removes C++-undefined non-trapping cells.",
       "differential execution against the host compiler over an enumerated operand matrix, under ASan/UBSan", "DESIGN.md section 5 C05")
+check("C16", "exploration",
+      "~35k (quick) / ~10^6 (thorough) literals evaluated on the real engine and compared with oracles that do not share code with the "
+      "parser: python big ints + the [lex.icon] typing table (typeid-exact), glibc strtof/strtod/strtold within 4 ulp, an independent C++ "
+      "escape decoder (malformed => must be eval_error), and keyword-colliding identifiers found by FNV-1a inversion at check time and "
+      "confirmed with the engine's own hash, used as variable/function/parameter/global/attribute names.",
+      "Trusted: glibc strto*, python int/bytes semantics, my transcription of [lex.icon]/[lex.ccon]. LP64 only.",
+      "model-based oracle over generated literals on the ASan/UBSan-instrumented engine", "DESIGN.md section 5 C16")
 for _p in ["C%02d" % i for i in range(2, 21) if "C%02d" % i not in CHECKS]:
     NA[_p] = "check not implemented yet in this revision (work in progress, see DESIGN.md); nothing is claimed"
